@@ -78,7 +78,20 @@ Definition chk_enum_wire (c : c6_case) : bool :=
                                  && Nat.eqb (List.length vs) (List.length (de_members e))
                     | None => de_iota e end) (c6_denums c).
 
-Definition chk_prop (c : c6_case) : bool := chk_links c && chk_enum_wire c.
+(** the Kind strings a Dart union accepts and writes are the Go names of its members (what the generated
+    Go wrappers write, C02), in the same order as the dispatch *)
+Definition chk_union_wire (c : c6_case) : bool :=
+  let pr := c6_prog c in let a := c6_ana c in
+  forallb (fun u =>
+    let ns := find_named pr a KdUnion (du_name u) in
+    match ns with
+    | n :: _ => ambiguous ns ||
+                (let tags := map (local_name_of pr) (nr_members n) in
+                 strs_eqb tags (du_from u) && strs_eqb tags (map snd (du_to u)))
+    | [] => true
+    end) (c6_unions c).
+
+Definition chk_prop (c : c6_case) : bool := chk_links c && chk_enum_wire c && chk_union_wire c.
 
 Section Generic.
   Context {A : Type} (f : A -> bool).
